@@ -285,6 +285,72 @@ def fam_random_exprs(pool, rng, n, depth=3):
     return ks
 
 
+def fam_random_stmts(pool, rng, n):
+    """random structured programs: nested counted loops (<= 3 levels, <= 3 iterations each), if/else,
+    break/continue at any level, assignments of non-trapping expressions. Non-trapping operators only,
+    so that no arithmetic trap can become dead code (see has_dead_trap)."""
+    ks = []
+    NT = ['&', '|', '^']
+
+    def expr(vars_, counters, d):
+        k = rng.random()
+        if d == 0 or k < 0.3:
+            c = rng.random()
+            if counters and c < 0.3:
+                return Var(rng.choice(counters))
+            if c < 0.8:
+                return Var(rng.choice(vars_))
+            return Lit(U64, rng.choice([0, 1, 3, 0xff, 1 << 32, (1 << 64) - 1]))
+        if k < 0.75:
+            return Bin(rng.choice(NT), expr(vars_, counters, d - 1), expr(vars_, counters, d - 1))
+        if k < 0.9:
+            return Bin(rng.choice(['<<', '>>']), expr(vars_, counters, d - 1), Lit(U64, rng.choice([1, 4, 17, 63])))
+        return Un('!', expr(vars_, counters, d - 1))
+
+    def cond(vars_, counters, budget):
+        # conditions on loop counters are concrete at run time; conditions on data fork the symbolic execution
+        if counters and (budget[0] <= 0 or rng.random() < 0.55):
+            c = rng.choice(counters)
+            return Bin(rng.choice(['==', '!=', '<', '>']), Var(c), Lit(U64, rng.choice([0, 1, 2, 3])))
+        budget[0] -= 1
+        return Bin(rng.choice(['==', '!=', '<']), Bin('&', expr(vars_, counters, 1), Lit(U64, rng.choice([1, 3, 0x80]))), Lit(U64, rng.choice([0, 1])))
+
+    def stmts(vars_, counters, depth, in_loop, budget, size):
+        out = []
+        for _ in range(size):
+            k = rng.random()
+            if k < 0.45:
+                out.append(Assign(rng.choice(vars_), expr(vars_, counters, 2)))
+            elif k < 0.65 and depth < 3:
+                ctr = f'i{depth}_{rng.randrange(1000)}'
+                bound = rng.choice([1, 2, 3])
+                body = [Assign(ctr, Bin('+', Var(ctr), Lit(U64, 1)))] + stmts(vars_, counters + [ctr], depth + 1, True, budget, rng.randint(1, 3))
+                out.append(Let(ctr, Lit(U64, 0), mut=True))
+                out.append(While(Bin('<', Var(ctr), Lit(U64, bound)), body, bound))
+            elif k < 0.85:
+                c = cond(vars_, counters, budget)
+                t = stmts(vars_, counters, depth, in_loop, budget, rng.randint(1, 2))
+                e = stmts(vars_, counters, depth, in_loop, budget, 1) if rng.random() < 0.4 else None
+                out.append(IfS(c, t, e))
+            elif in_loop:
+                c = cond(vars_, counters, budget)
+                out.append(IfS(c, [rng.choice([Break(), Continue(), Continue()])]))
+            else:
+                out.append(Assign(rng.choice(vars_), expr(vars_, counters, 1)))
+        return out
+
+    for i in range(n):
+        vars_ = ['v0', 'v1', 'v2']
+        budget = [4]
+        body = [Let('v0', Var('x'), mut=True), Let('v1', Var('y'), mut=True), Let('v2', Var('z'), mut=True)]
+        body += stmts(vars_, [], 0, False, budget, rng.randint(3, 5))
+        res = Bin('^', Bin('^', Var('v0'), Bin('<<', Var('v1'), Lit(U64, 1))), Bin('>>', Var('v2'), Lit(U64, 1)))
+        nm = f'rs{i}'
+        ks.append(Kernel(nm, [Fn(nm, [('x', U64), ('y', U64), ('z', U64)], U64, Block(body, res))], nm, ['a64', 'b64', 'c64'], 'randstmt',
+                         'random nested loops / if / break / continue over non-trapping expressions'))
+    return ks
+
+
 def fam_control(pool):
     """hand-shaped control-flow kernels: loops with concrete bounds, break/continue, early return,
     nested ifs, mutation."""
@@ -356,6 +422,37 @@ def fam_control(pool):
                             IfS(Var('c'), [Assign('r', Bin('|', Var('r'), Lit(U64, 1)))], [Assign('r', Bin('&', Var('r'), Lit(U64, 0xff)))]),
                             IfS(Un('!', Var('c')), [Assign('r', Bin('^', Var('r'), Var('z')))])],
       Var('r'), 'both arms empty hooks, then the flag is tested again twice', extra=[noops[2]])
+    # nested loops with `continue`/`break` of the outer loop placed after the inner loop
+    K('loop_nested_outer_continue', [Let('acc', Lit(U64, 0), mut=True), Let('i', Lit(U64, 0), mut=True),
+                                     While(Bin('<', Var('i'), Lit(U64, 3)),
+                                           [Assign('i', Bin('+', Var('i'), Lit(U64, 1))), Let('j', Lit(U64, 0), mut=True),
+                                            While(Bin('<', Var('j'), Lit(U64, 2)),
+                                                  [Assign('acc', Bin('^', Bin('<<', Var('acc'), Lit(U64, 3)), Bin('&', Var('x'), Bin('|', Var('i'), Bin('<<', Var('j'), Lit(U64, 4)))))),
+                                                   Assign('j', Bin('+', Var('j'), Lit(U64, 1)))], 2),
+                                            IfS(Bin('==', Bin('&', Bin('>>', Var('y'), Var('i')), Lit(U64, 1)), Lit(U64, 0)), [Continue()]),
+                                            Assign('acc', Bin('^', Var('acc'), Var('z')))], 3)],
+      Var('acc'), 'outer continue after the inner loop')
+    K('loop_nested_outer_break', [Let('acc', Var('z'), mut=True), Let('i', Lit(U64, 0), mut=True),
+                                  While(Bin('<', Var('i'), Lit(U64, 3)),
+                                        [Let('j', Lit(U64, 0), mut=True),
+                                         While(Bin('<', Var('j'), Lit(U64, 2)),
+                                               [Assign('j', Bin('+', Var('j'), Lit(U64, 1))),
+                                                IfS(Bin('==', Var('j'), Lit(U64, 1)), [Continue()]),
+                                                Assign('acc', Bin('|', Bin('<<', Var('acc'), Lit(U64, 1)), Bin('&', Var('x'), Lit(U64, 1))))], 2),
+                                         Assign('i', Bin('+', Var('i'), Lit(U64, 1))),
+                                         IfS(Bin('==', Var('i'), Bin('&', Var('y'), Lit(U64, 3))), [Break()]),
+                                         IfS(Bin('==', Bin('&', Var('x'), Var('i')), Lit(U64, 2)), [Continue()]),
+                                         Assign('acc', Bin('^', Var('acc'), Var('i')))], 3)],
+      Var('acc'), 'inner continue, outer break and outer continue after the inner loop')
+    # references: mutation through &mut, reference passed to an out-of-line function
+    K('ref_update', [Let('v', Var('x'), mut=True), ViaRef('r', 'v', Bin('+', Deref('r', 'v'), Var('y'))),
+                     IfS(Bin('>', Var('v'), Var('z')), [ViaRef('r2', 'v', Bin('-', Deref('r2', 'v'), Var('z')))])],
+      Var('v'), 'let r = &mut v; *r = *r + y; conditional second update through another reference')
+    K('ref_loop', [Let('acc', Lit(U64, 1), mut=True), Let('i', Lit(U64, 0), mut=True),
+                   While(Bin('<', Var('i'), Lit(U64, 3)),
+                         [ViaRef('r', 'acc', Bin('^', Bin('<<', Deref('r', 'acc'), Lit(U64, 1)), Var('x'))),
+                          Assign('i', Bin('+', Var('i'), Lit(U64, 1)))], 3)],
+      Bin('|', Var('acc'), Var('y')), 'update through a reference inside a loop')
     # u8 accumulator overflow inside loop
     K('loop_u8', [Let('acc', Var('x'), mut=True), Let('i', Lit(U8, 0), mut=True),
                   While(Bin('<', Var('i'), Lit(U8, 3)),
@@ -549,6 +646,18 @@ def fam_pressure(pool, n=56):
     acc = Var('acc')
     f = Fn('pressure', [('x', U64), ('y', U64)], U64, Block(stmts, acc), attrs=['inline(never)'])
     ks.append(Kernel('pressure', [f], 'pressure', ['a64', 'b64'], 'pressure', f'{n} simultaneously live values'))
+    # values live across calls to an out-of-line function
+    helper = Fn('pressure_helper', [('p', U64), ('q', U64)], U64, Block([], Bin('^', Bin('>>', Var('p'), Lit(U64, 3)), Var('q'))), attrs=['inline(never)'])
+    stmts3 = []
+    m = 20
+    for i in range(m):
+        stmts3.append(Let(f'c{i}', Bin('|', Bin('<<', Var('x'), Lit(U64, i % 11)), Lit(U64, i + 1))))
+    stmts3.append(Let('acc', Lit(U64, 0), mut=True))
+    for i in range(m):
+        stmts3.append(Assign('acc', Bin('^', Var('acc'), Call('pressure_helper', [Var(f'c{i}'), Var(f'c{(i * 7 + 3) % m}')]))))
+    h = Fn('pressure_calls', [('x', U64)], U64, Block(stmts3, Var('acc')), attrs=['inline(never)'])
+    kk = Kernel('pressure_calls', [helper, h], 'pressure_calls', ['a64'], 'pressure', f'{m} values live across {m} out-of-line calls')
+    ks.append(kk)
     stmts2 = []
     for i in range(n):
         stmts2.append(Let(f'w{i}', Bin('+', Bin('&', Bin('>>', Var('x'), Lit(U64, i % 50)), Lit(U64, 0xff)), Lit(U64, i))))
@@ -716,6 +825,7 @@ def build_corpus(tier='quick', seed=0, asm_rules=None, families=None):
     int_ks = fam_binops('int', [U8, U16, U32, U64]) + fam_control('int') + fam_calls('int') + fam_pressure('int')
     const_ks = fam_const_operand('int', [U8, U16, U32, U64], rng, per_type=6 if tier == 'quick' else 40)
     rand_ks = fam_random_exprs('int', rng, 24 if tier == 'quick' else 160, depth=3)
+    rand_ks += fam_random_stmts('int', rng, 16 if tier == 'quick' else 120)
     wide_ks = fam_binops('wide', [U256]) + fam_wide('wide') + fam_const_operand('wide', [U256], rng, per_type=6 if tier == 'quick' else 30)
     bool_ks = fam_bool('bool') + fam_random_exprs('bool', rng, 8 if tier == 'quick' else 40, depth=3)
     agg_ks = fam_aggregates('agg')
